@@ -226,6 +226,40 @@ func oneHandover(r *vf.Run, a *app.App, me *refctl.Identity, acc app.StoredEntit
 		}
 	}
 	r.Count("handovers_ok", 1)
+	if mode != 0 {
+		return
+	}
+	// pair-verify once more on the same, now encrypted, connection (the session "allows to switch encryption"):
+	// M1..M4 travel under the current keys, everything after M4 under the keys of the new exchange
+	v2, err := c.StartVerify(me, acc.PublicKey, acc.Name, nil)
+	if err != nil {
+		r.Violation("handover:reverify:"+stageSig(err), "a second pair-verify on the encrypted connection failed at its start: "+err.Error(), w(""))
+		return
+	}
+	if err := c.FinishVerify(v2); err != nil {
+		r.Violation("handover:reverify:"+stageSig(err), "a second pair-verify on the encrypted connection failed at its finish: "+err.Error(), w(""))
+		return
+	}
+	for k := 0; k < 2; k++ {
+		m, err := c.Do("GET", "/characteristics?id=1.3", "", nil)
+		if err == refctl.ErrTimeout {
+			if un, _, perr := a.Unanswered(c); perr == nil && un {
+				r.Violation("handover:reverify:request-unanswered", "a request under the keys of the second pair-verify was never answered", w(""))
+			} else if perr != nil {
+				r.Inconclusive("handover probe: " + perr.Error())
+			}
+			return
+		}
+		if err != nil {
+			r.Violation("handover:reverify:response-"+errClassH(err), fmt.Sprintf("after a second pair-verify on the same connection the accessory's answer does not decrypt under the new keys: %v", err), w(""))
+			return
+		}
+		if m.Status != 200 {
+			r.Violation("handover:reverify:response-status", fmt.Sprintf("status %d after the second pair-verify", m.Status), w(""))
+			return
+		}
+	}
+	r.Count("reverifications_ok", 1)
 }
 
 func stageSig(err error) string {
